@@ -2,7 +2,7 @@
    record and setting round trips, and conformance of written documents to the shipped schemas.
    Facts about the generated constants (json_framing, tag_logs, tag_settings, log_schema, setting_schema)
    are obtained by computation on those constants only. *)
-From BE Require Import Model.Json Model.Schema Gen.JsonFraming Gen.Schemas.
+From BE Require Import Model.Json Model.Schema Model.JsonFramingHand Model.SchemasHand.
 From BE Require Import Proofs.Hands.
 From Coq Require Import ZArith Lia.
 Local Open Scope string_scope.
